@@ -82,6 +82,7 @@ type fnExec struct {
 	// current block context
 	curR      Term
 	sentinels []string
+	sliceData map[ssa.Value]Sl
 	hookFired map[string]bool
 	prevStored SV
 	preAssumed bool
